@@ -439,6 +439,7 @@ def x_binop(self, st, op, a, b, node):
                 items = list(oa.items) + [x for x in ob.items if vkey(x) not in ka]
             return st.alloc(HObj("set", kind="set", items=items))
     if isinstance(op, ast.Mod) and isinstance(a, str):
+        b = x_strify(self, st, b)
         try:
             if _is_plain(b):
                 return a % (b,) if not isinstance(b, tuple) else a % b
@@ -465,6 +466,24 @@ def x_binop(self, st, op, a, b, node):
     inp = any(isinstance(x, Top) and x.input for x in (a, b)) and not any(
         isinstance(x, Top) and not x.input for x in (a, b))
     return Top("binop:%s" % type(op).__name__, inp)
+
+
+def x_strify(self, st, v):
+    """objects of in-repo classes inside a %-format argument are replaced by the text their __str__ computes (when that
+    is a constant), harness values with abs_str() by that text"""
+    if isinstance(v, tuple):
+        return tuple(x_strify(self, st, x) for x in v)
+    if hasattr(v, "abs_str"):
+        return v.abs_str()
+    if isinstance(v, Ref):
+        o = st.obj(v)
+        if isinstance(o.cls, ClassInfo) and o.kind == "obj":
+            m = o.cls.lookup("__str__")
+            if m is not None:
+                outs = self.call_function(st.fork(), m, [], {}, None, self_val=v)
+                if len(outs) == 1 and outs[0][1] == "val" and isinstance(outs[0][2], str):
+                    return outs[0][2]
+    return v
 
 
 def _is_plain(v):
